@@ -279,6 +279,35 @@ def Ty.WF (K : Bytes → Option Bytes) : (t : Ty) → t.Val → Prop
     es.length < c.max ∧ strictDesc (k.sortKey ord) es ∧
     ∀ e ∈ es, (k.WF K e.1 ∧ kg.ok (k.measure e.1) = true) ∧ v.WF K e.2
 
+/-! ## Executable well-formedness test (sound for `WF`: `Poly.Proofs.Schema.Ty.wfb_sound`) -/
+
+def Leaf.wfb (K : Bytes → Option Bytes) : (l : Leaf) → l.Val → Bool
+  | .varbytes, v => decide (List.length (α := UInt8) v < 2 ^ 64)
+  | .fixed n, v => decide (List.length (α := UInt8) v = n)
+  | .key, v => decide (List.length (α := UInt8) v < 2 ^ 64) && (K v == some v)
+  | .bigint, v => decide ((beBytes v).length < 2 ^ 64)
+  | .optFixed n, v => decide (List.length (α := UInt8) v = n)
+  | .optString, v => decide (List.length (α := UInt8) v < 2 ^ 64)
+  | .optBytes, v => decide (List.length (α := UInt8) v < 2 ^ 64)
+  | _, _ => true
+
+def strictDescB {κ ν : Type} (key : κ → Bytes) : List (κ × ν) → Bool
+  | [] => true
+  | e :: rest => rest.all (fun e' => bytesLt (key e'.1) (key e.1)) && strictDescB key rest
+
+def Ty.wfb (K : Bytes → Option Bytes) : (t : Ty) → t.Val → Bool
+  | .leaf l g, v => l.wfb K v && g.ok (l.measure v)
+  | .pair a b, (x, y) => a.wfb K x && b.wfb K y
+  | .list o t, vs =>
+    decide (List.length (α := t.Val) vs < o.cnt.max) && !overBound o.bound (List.length (α := t.Val) vs) &&
+    !o.alloc.panics (List.length (α := t.Val) vs) &&
+    (!o.signedLoop || decide (List.length (α := t.Val) vs < 2 ^ 63)) &&
+    (match o.clamp with | some k => decide (List.length (α := t.Val) vs ≤ k) | none => true) &&
+    List.all (α := t.Val) vs (t.wfb K)
+  | .map c k kg v ord, es =>
+    decide (List.length (α := k.Val × v.Val) es < c.max) && strictDescB (k.sortKey ord) (es : List (k.Val × v.Val)) &&
+    List.all (α := k.Val × v.Val) es (fun e => k.wfb K e.1 && kg.ok (k.measure e.1) && v.wfb K e.2)
+
 /-! ## Syntactic side conditions -/
 
 /-- every leaf reports truncation (no eof-ignoring tail) -/
